@@ -91,7 +91,10 @@ def evalStateless (req : List String) : Option (Obs × Option Obs) :=
       some (← modelParse t s, specParse t s)
   | ["display", _t, v] => do
       let v ← nat? v
-      some (modelDisplay v, some (specDisplay v))
+      some (← modelDisplay 0 v, specDisplay 0 v)
+  | ["display", _t, v, k] => do
+      let (v, k) := (← nat? v, ← nat? k)
+      some (← modelDisplay k v, specDisplay k v)
   | ["ord", _t, a, b] => do
       let (a, b) := (← nat? a, ← nat? b)
       some (modelOrd a b, some (modelOrd a b))
